@@ -115,26 +115,49 @@ Fixpoint pool_find (k : conn_key) (pl : pool) : option (option bytes) :=
   | (k', h) :: r => if key_eqb k k' then Some h else pool_find k r
   end.
 
+(* Transport.ProxyConnectHeader (static extra headers for CONNECT) may itself carry a
+   Proxy-Authorization, [static]; dialConn works on a Clone of it, and the credentials of the
+   proxy URL, when there are any, override it.  Plain-http requests never see that header. *)
+Definition connect_auth (static : option bytes) (p : proxy_url) : option bytes :=
+  match proxy_auth p with Some h => Some h | None => static end.
+Definition sent_auth (static : option bytes) (https : bool) (p : proxy_url) : option bytes :=
+  if https then connect_auth static p else proxy_auth p.
+
 (* One request through the proxy.  Result: what the proxy receives for it and the pool after.
    plain http target: the request itself carries the header of the connection it travels on;
    https target: a new tunnel sends one CONNECT with the header, a re-used tunnel sends the
-   proxy nothing. *)
-Definition proxy_step_with (keytext : proxy_url -> bytes) (pl : pool) (p : proxy_url) (https : bool) (target : bytes)
-  : list (option bytes) * pool :=
+   proxy nothing.  [static] is never changed. *)
+Definition proxy_step_with (keytext : proxy_url -> bytes) (static : option bytes) (pl : pool) (p : proxy_url)
+           (https : bool) (target : bytes) : list (option bytes) * pool :=
   let k := key_with keytext p https target in
   match pool_find k pl with
   | Some h => (if https then [] else [h], pl)
-  | None => ([proxy_auth p], (k, proxy_auth p) :: pl)
+  | None => ([sent_auth static https p], (k, sent_auth static https p) :: pl)
   end.
 Definition proxy_step := proxy_step_with pu_string.
 
 Definition proxy_req := (proxy_url * bool * bytes)%type.
 
-Fixpoint proxy_run_with (keytext : proxy_url -> bytes) (pl : pool) (rs : list proxy_req) : list (list (option bytes)) :=
+Fixpoint proxy_run_with (keytext : proxy_url -> bytes) (static : option bytes) (pl : pool) (rs : list proxy_req)
+  : list (list (option bytes)) :=
   match rs with
   | [] => []
   | (p, https, target) :: r =>
-      let '(seen, pl') := proxy_step_with keytext pl p https target in
-      seen :: proxy_run_with keytext pl' r
+      let '(seen, pl') := proxy_step_with keytext static pl p https target in
+      seen :: proxy_run_with keytext static pl' r
   end.
 Definition proxy_run := proxy_run_with pu_string.
+
+(* a seeded change dropped the Clone: the credentials of a proxy URL are written INTO the static
+   header and stay there for later tunnels ([static] becomes carried state) *)
+Fixpoint proxy_run_shared (static : option bytes) (pl : pool) (rs : list proxy_req) : list (list (option bytes)) :=
+  match rs with
+  | [] => []
+  | (p, https, target) :: r =>
+      let '(seen, pl') := proxy_step_with pu_string static pl p https target in
+      let static' := match pool_find (key_with pu_string p https target) pl, https, proxy_auth p with
+                     | None, true, Some h => Some h
+                     | _, _, _ => static
+                     end in
+      seen :: proxy_run_shared static' pl' r
+  end.
